@@ -16,14 +16,36 @@ import (
 //
 // Everything else the generator has a case for is in: unnamed structs (top level, pointee, field),
 // pointers to pointers, named non-struct types as components, arrays of any length.
-func Supported(env *ty.Env, t *ty.Ty) bool {
+func Supported(env *ty.Env, t *ty.Ty) bool { return supported(env, t, false) }
+
+// LocalPkg is the derive package that also declares types of its own (as gen.LocalPkg).
+const LocalPkg = "q0"
+
+// SupportedX is Supported, except that declared struct types of the derive package itself may have
+// unexported fields: the generator accepts those (only imported structs with private fields are refused),
+// but the text then assigns `this.f = …`, which an importing package cannot compile. Such types are outside
+// the property's quantifier ("exported fields"); their ops are correspondence-only (`gostringx`).
+func SupportedX(env *ty.Env, t *ty.Ty) bool { return supported(env, t, true) }
+
+// MentionsLocal: some declared type of the derive package LocalPkg is reachable from t.
+func MentionsLocal(env *ty.Env, t *ty.Ty) bool {
+	local := false
+	gen.Walk(env, t, gen.CtxTop, map[int]bool{}, func(x *ty.Ty, ctx int) {
+		if x.K == ty.Named && env.Decls[x.N].Pkg == LocalPkg {
+			local = true
+		}
+	})
+	return local
+}
+
+func supported(env *ty.Env, t *ty.Ty, localPriv bool) bool {
 	ok := true
 	gen.Walk(env, t, gen.CtxTop, map[int]bool{}, func(x *ty.Ty, ctx int) {
 		switch x.K {
 		case ty.Chan, ty.Func, ty.Iface:
 			ok = false
 		case ty.Named:
-			if env.Decls[x.N].Priv {
+			if env.Decls[x.N].Priv && !(localPriv && env.Decls[x.N].Pkg == LocalPkg) {
 				ok = false
 			}
 		case ty.Struct:
